@@ -3,8 +3,10 @@
 inspired by:
 https://github.com/sutoiku/formula.js/blob/master/lib/math-trig.js
 """
+import decimal
 import math
 import random
+from fractions import Fraction
 import re
 from functools import reduce
 import operator
@@ -222,52 +224,50 @@ def ROUND(number, digits):
     return round(number, digits)
 
 
-@dispatcher.register_for('ROUNDUP')
-def ROUNDUP(number, digits):
+def written(number):
+    """ The number as an exact fraction.  A float stands for the decimal it is written as - 0.07,
+    not the 0.07000000000000000666 a double stores: scaled in float arithmetic, 0.07 * 100 lands
+    above 7 and 1.7000000000000002 * 10 on 17, on the wrong side of the multiple either way. """
+    if isinstance(number, float):
+        return Fraction(decimal.Decimal(repr(number)))
+    return Fraction(number)
+
+
+def multiple_of(count, unit, *like):
+    """ count * unit (exact), as a whole number when the arguments were whole numbers """
+    result = count * unit
+    if any(isinstance(x, float) for x in like) or result.denominator != 1:
+        return float(result)
+    return int(result)
+
+
+def round_in_magnitude(number, digits, up):
     number = utils.parse_number(number)
     digits = utils.parse_number(digits)
     if utils.any_is_error((number, digits)):
         return error.VALUE
-    sign = 1 if number > 0 else -1
     if digits > 400:
         # no double has that many decimals (and 10**digits would take for ever to build)
         return number
     if digits < -400:
         # the next multiple of a unit beyond every number a sheet can hold
-        return error.NUM if number else 0
-    if digits < 0:
-        # 10**digits is not exact (300000 * 10**-5 is 3.0000000000000004): divide by the exact unit instead
-        unit = 10**-digits
-        if isinstance(number, int) and isinstance(digits, int) and digits > -400:
-            # whole numbers stay exact (beyond 2^53 the float quotient would drop the units)
-            return sign * -(-abs(number) // unit) * unit
-        return sign * math.ceil(abs(number) / float(unit)) * unit
-    if (isinstance(number, int) and not isinstance(number, bool)) or digits > 300 or abs(number) * 10.0**digits >= 2**53:
-        # nothing to round: a whole number, or a double that has no digits beyond the requested
-        # ones (scaling it would drop digits it does have: 4503599627370495.5 * 10 is not exact)
-        return number
-    return sign * (math.ceil(abs(number) * 10**digits)) / 10**digits
+        return error.NUM if number and up else 0
+    if digits >= 0 and isinstance(number, int) and not isinstance(number, bool):
+        return number  # nothing to round
+    unit = Fraction(10) ** -int(digits)
+    quotient = abs(written(number)) / unit
+    count = -(-quotient.numerator // quotient.denominator) if up else quotient.numerator // quotient.denominator
+    return multiple_of(count if number > 0 else -count, unit, number)
+
+
+@dispatcher.register_for('ROUNDUP')
+def ROUNDUP(number, digits):
+    return round_in_magnitude(number, digits, True)
 
 
 @dispatcher.register_for('ROUNDDOWN')
 def ROUNDDOWN(number, digits):
-    number = utils.parse_number(number)
-    digits = utils.parse_number(digits)
-    if utils.any_is_error((number, digits)):
-        return error.VALUE
-    sign = 1 if number > 0 else -1
-    if digits > 400:
-        return number
-    if digits < -400:
-        return 0
-    if digits < 0:
-        unit = 10**-digits
-        if isinstance(number, int) and isinstance(digits, int):
-            return sign * (abs(number) // unit) * unit
-        return sign * math.floor(abs(number) / float(unit)) * unit
-    if (isinstance(number, int) and not isinstance(number, bool)) or digits > 300 or abs(number) * 10.0**digits >= 2**53:
-        return number
-    return sign * (math.floor(abs(number) * 10**digits)) / 10**digits
+    return round_in_magnitude(number, digits, False)
 
 
 @dispatcher.register_for('SUM')
